@@ -1,7 +1,7 @@
 """C13: per-actor certificates + glue (see lean/Poupool/Properties/C13.lean and checks/actors_common.py)."""
 from checks import actors_common as ac
 
-THEOREMS = ['Poupool.C13.timed_stops', 'Poupool.C13.timed_accumulates', 'Poupool.C13.swim_relay_only_in_running_phases', 'Poupool.C13.swim_start_is_guarded', 'Poupool.C13.filtration_knows_swim_halted', 'Poupool.C13.swim_guard_allows_wintering', 'Poupool.C13.swim_guard_open_modes_partial', 'Poupool.C01.glue_swim', 'Poupool.C01.swim_off_when_halted']
+THEOREMS = ['Poupool.C13.timed_stops', 'Poupool.C13.timed_accumulates', 'Poupool.C13.timer_models_agree', 'Poupool.C13.timer_models_agree_reset', 'Poupool.C13.swim_relay_only_in_running_phases', 'Poupool.C13.swim_start_is_guarded', 'Poupool.C13.filtration_knows_swim_halted', 'Poupool.C13.swim_guard_allows_wintering', 'Poupool.C13.swim_guard_open_modes_partial', 'Poupool.C01.glue_swim', 'Poupool.C01.swim_off_when_halted']
 COMPOSE = ['Poupool.ComposeProps.filtSwim_discipline', 'Poupool.ComposeProps.filtSwim_halted_when_served', 'Poupool.ComposeProps.filtration_never_list', 'Poupool.ComposeProps.filtSwim_composed_never_list', 'Poupool.ComposeProps.filtSwim_demo']
 TIMING = ['Poupool.Timing.swim_polls', 'Poupool.Timing.swim_timed_run']
 MODULE = "Poupool.Properties.C13"
@@ -42,3 +42,8 @@ def extra(chk, info, res):
     guards_common.correspondence(chk, ['filtration_allow_swim', 'filtration_is_wintering'])
     from checks import winter_common
     winter_common.correspondence(chk, ('timed',))
+    # util.Timer as modelled by Eco.Timer (which C13.timer_models_agree relates to the timer of the swim poll): statement shape
+    from translate import eco_config as _ecfg
+    _v, _ = _ecfg.generate()
+    _dev = [d for d in _v["deviations"] if "Timer" in d]
+    chk.obligation("shape: util.Timer (delay setter, reset, clear, update, elapsed) is the class Eco.Timer mirrors", not _dev, ", ".join(_dev))
